@@ -1,3 +1,4 @@
+mod container;
 mod core;
 mod gen;
 mod history;
@@ -57,6 +58,7 @@ fn main() {
             "C12" => props::c12(&ctx, &mut rep),
             "C13" => props::c13(&ctx, &mut rep),
             "C14" => props::c14(&ctx, &mut rep),
+            "C19" => container::c19(&ctx, &mut rep),
             _ => {
                 eprintln!("unknown property {}", prop);
                 std::process::exit(2);
@@ -84,6 +86,7 @@ fn replay_ops(ctx: &Ctx, rep: &mut Report, path: &str) {
     let text = std::fs::read_to_string(path).expect("read replay");
     // the replay file is JSON with an "ops" array of strings; extract them crudely
     let mut ops: Vec<String> = vec![];
+    let mut dend_ops: Vec<String> = vec![];
     if let Some(p) = text.find("\"ops\"") {
         let rest = &text[p..];
         if let (Some(a), Some(b)) = (rest.find('['), rest.find(']')) {
@@ -93,8 +96,16 @@ fn replay_ops(ctx: &Ctx, rep: &mut Report, path: &str) {
                 if s.starts_with("call ") || s.starts_with("with ") {
                     ops.push(s.to_string());
                 }
+                if s.starts_with("dend ") {
+                    dend_ops.push(s.to_string());
+                }
             }
         }
+    }
+    if !dend_ops.is_empty() {
+        container::replay_dend(ctx, &dend_ops);
+        rep.seen(&dend_ops.join("\n"), true);
+        return;
     }
     let model = core::run_driver(&ctx.driver, &ops).unwrap_or_default();
     let mut st64 = kodama::LinkageState::<f64>::new();
